@@ -11,6 +11,7 @@ TARGETS = {  # mutant -> checks to run (first = the property it was seeded for)
     "benign-refill-inline": ["C01", "C02", "C05", "C19"],
     "D09-asfound": ["C13"],
     "L13-keepprev": ["C13"],
+    "L07-closeondrop": ["C07"],
     # changes seeded for one property whose effect is another property's clause (post-error reads, coded bodies)
     "C01-m5": ["C01", "C02"],
     "C02-m5": ["C02", "C06"],
